@@ -25,6 +25,11 @@ def configs(tier):
             add(kindA=kind, shapeA="held", roleA=role, measure="weight")
         for kb in ("spot", "margined"):
             add(kindA=kind, shapeA="fresh", kindB=kb, shapeB="held", roleB="untargeted", measure="weight")
+    # the same targets submitted through the action space (PortfolioSpace.make_rebalancing_request)
+    for kind in ("spot", "margined"):
+        for measure in ("weight", "nr-contracts"):
+            add(kindA=kind, shapeA="held", measure=measure, via_space=True)
+        add(kindA=kind, shapeA="fresh", kindB=kind, shapeB="held", roleB="zero", measure="nr-contracts", via_space=True)
     add(kindA="spot", specA="ETF", shapeA="held", measure="weight")
     add(kindA="margined", specA="ES", shapeA="held", measure="weight")
     if tier == "thorough":
@@ -42,7 +47,7 @@ def configs(tier):
     return out
 
 
-ANCHORS = ["rebalancing.py:Rebalancing.make_trades", "allocation.py:Weights._to_nr_contracts",
+ANCHORS = ["spaces.py:PortfolioSpace.make_rebalancing_request", "rebalancing.py:Rebalancing.make_trades", "allocation.py:Weights._to_nr_contracts",
            "allocation.py:_Allocation.__sub__", "allocation.py:NrContracts._to_weights",
            "broker.py:Broker.rebalance", "broker.py:Broker.transact", "broker.py:Broker.context"]
 EXPECT_REACH = ["rebalance"]
